@@ -186,8 +186,12 @@ def run(chk):
                 todo_r.append(fn.module.functions[n_.func.id])
     raises = [x for g_ in scope_r for x in ast.walk(g_.node) if isinstance(x, ast.Raise) and x.exc is not None]
     for x in raises:
-        e = x.exc.func if isinstance(x.exc, ast.Call) else x.exc
-        nm = e.id if isinstance(e, ast.Name) else getattr(e, "attr", "?")
+        from .keyeval import raised_class_name
+
+        nm = raised_class_name(x.exc, fn.module)
+        if nm is None:
+            r4.undecided("check_key_helper:raise-site:line-%d" % x.lineno, "`%s` raises what a helper builds, and the helper's returns do not construct one class" % node_src(x, 80))
+            continue
         r4.expect(nm == EXC, "raise site line %d raises %s" % (x.lineno, EXC), "check_key_helper:raise-site:%s" % nm, "a raise statement of check_key_helper raises %s" % nm, fn=fn, node=x)
     r4.floor("raise sites", len(raises), 1)
 
